@@ -117,9 +117,17 @@ let judge_case (dom : string) (mode : string) (n : int) (o : obs) =
       | Some (_, mc), Some (d, ap) -> tie "tie-approx" (max d (2 * n)) (approx_of mc) ap; d, ap
       | _ -> raise (Syntax "missing mc/ap")
     end else begin
-      match get_cons o "mcb", get_cons o "mca", get_cons o "apb", get_cons o "apa", get_cons o "ap" with
+      match get_cons o "mcb", get_cons o "mca", get_cons o "apb0", get_cons o "apa", get_cons o "ap" with
       | Some (_, mcb), Some (_, mca), Some (db, apb), Some (da, apa), Some (d, ap) ->
           tie "tie-approx" (max db n) (approx_of mcb) apb;
+          (* the guard system of the PR_2 entry points: before /\ (exists x'. after), decided exactly *)
+          (match get_cons o "relg", get_cons o "mcg", get_cons o "apb" with
+           | Some (dg, relg), Some (_, mcg), Some (dgb, apg) ->
+               tie "tie-approx" (max dgb n) (approx_of mcg) apg;
+               check "tie-guard" (fun () -> Printf.sprintf "guard %s is not before /\\ exists x'. after for %s" (show_cons relg) (show_cons rel))
+                 (fun () -> equiv_sys (nat (2 * n)) (sys_of_cons (List.map (fun c -> shift_con (nat n) (pad_con n c)) relg))
+                              (elim_set (List.init n (fun i -> nat i)) (sys_of_cons rel)))
+           | _ -> fail "tie-guard" "missing relg/mcg/apb");
           tie "tie-approx" (max da (2 * n)) (approx_of mca) apa;
           tie "tie-approx2" (max d (2 * n)) (assign_all_inequalities_approximation_2 (nat db) apb apa) ap;
           d, ap
@@ -142,6 +150,12 @@ let judge_case (dom : string) (mode : string) (n : int) (o : obs) =
     incl_sys (nat (2 * n)) (sys_of_cons (List.map (fun c -> shift_con (nat db) c) apb))
       (elim_set (List.init n (fun i -> nat i)) (sys_of_cons rel_pr))) in
   (match guard_ok with Some true -> bump "pr2:before-carries-guard" | Some false -> bump "pr2:guard-only-in-after" | None -> bump "pr2:guard-?");
+  (* the system handed to the PR two-system builder always carries the guard (hypothesis of C18_ms_pr2_agree) *)
+  check "pr2-guard-holds" (fun () -> Printf.sprintf "before = %s does not carry the guard of after = %s" (show_cons apb) (show_cons apa)) (fun () -> guard_ok);
+  (* closing a strict before/after pair can denote a smaller relation than closing its two halves (MS_2): then only
+     MS => PR is required *)
+  let rel_same = if mode = "one" then Some true else timed (fun () -> equiv_cons (nat (2 * n)) rel_pr ap) in
+  if rel_same = Some false then bump "pr2:closed-relations-differ";
   (* n as the C++ computes it *)
   let nn = ap_dim / 2 in
   if nn <> n then bump "n-from-cs-differs";
@@ -177,10 +191,8 @@ let judge_case (dom : string) (mode : string) (n : int) (o : obs) =
   (match f_ms, f_pro, f_pr with
    | Some a, Some b, Some c ->
        expect "model-agree" (fun () -> Printf.sprintf "feasible: MS %b PR_original %b" a b) (a = b);
-       if guard_ok = Some false && a && not c then begin
-         incr n_checks; fail "pr2-guard" (Printf.sprintf "PR two-system encoding infeasible though a ranking function exists: before = %s lacks constraints on x implied by after = %s" (show_cons apb) (show_cons apa)) end
-       else if guard_ok = None && a <> c then undecided "model-agree"
-       else expect "model-agree" (fun () -> Printf.sprintf "feasible: MS %b PR_original %b PR %b" a b c) (a = c)
+       if rel_same = None && a <> c then undecided "model-agree"
+       else expect "model-agree" (fun () -> Printf.sprintf "feasible: MS %b PR_original %b PR %b" a b c) (if rel_same = Some false then (not a || c) else a = c)
    | _ -> undecided "model-agree");
   (* (iii) verdicts *)
   let verdict tag f =
@@ -204,10 +216,8 @@ let judge_case (dom : string) (mode : string) (n : int) (o : obs) =
        expect "agree" show_vs (List.for_all (fun (_, v) -> v = v0) main);
        List.iter (fun (t, v) ->
          if v = v0 then expect "agree" show_vs true
-         else if v0 && not v && guard_ok = Some false then begin
-           incr n_checks; fail "pr2-guard" (Printf.sprintf "%s=false while %s: before = %s lacks constraints on x implied by after = %s" t (show_vs ()) (show_cons apb) (show_cons apa)) end
-         else if guard_ok = None then undecided "agree"
-         else expect "agree" show_vs false) pr2
+         else if rel_same = None then undecided "agree"
+         else expect "agree" show_vs (rel_same = Some false && v && not v0)) pr2
    | [] -> ());
   (* (ii) returned functions *)
   let gl_of (g : gen) = g.gco in
